@@ -94,7 +94,7 @@ class Prop(object):
     ID = 'C07'
     LEVEL = 'model_checking'
     TECHNIQUE = 'explicit-state search over key-management histories on real objects; public-export invariant evaluated in every state, on the fresh public twin, on twins derived earlier and on the export loaded back'
-    RULE = ('the C15 history space (25 operations, 3 roots, depth bound) with the C07 invariant in every state, plus every C06 key set in unprotected / locked / unlocked '
+    RULE = ('the C15 history space (26 operations, 3 roots, depth bound) with the C07 invariant in every state, plus every C06 key set in unprotected / locked / unlocked '
             'form: derived public object exports only tags 6, 14, 13, 17, 2 (binary and armored), equals the private key in fingerprint, identities, subkeys and '
             'exportable signatures, contains no secret-integer octets, its object graph holds no secret, and sign / certify / revoke / revoker / bind / decrypt / '
             'add_subkey refuse while protect / unlock leave it public. One state = one canonical key state.')
